@@ -318,7 +318,7 @@ func (c *Context) HandleEnvelop(envelop vivid.Envelop) {
 	// 重启过程中等待子 Actor 结束时收到的终止请求需要将重启转为终止，不能作为死信丢弃。
 	_, isKill := envelop.Message().(*vivid.OnKill)
 	killingOrKilled := (currentState == killed) || (!envelop.System() && !isKill && currentState != running) // 是否处于停止中或死亡状态
-	if killingOrKilled && !c.zombie {                                                             // 是否处于僵尸状态
+	if killingOrKilled && !c.zombie {                                                                        // 是否处于僵尸状态
 		if _, isDeathLetter := envelop.Message().(ves.DeathLetterEvent); isDeathLetter && c.parent == nil {
 			// 根 Actor 自身已不在运行（系统停止中或已停止）：死信已无处可投，直接丢弃。
 			// 若继续包装为新的死信投递给自己，会被再次包装、再次投递，形成无限循环。
